@@ -19,7 +19,11 @@ class MemFace(Face):
         self._stop = None
         self.opened = 0
 
+    open_delay = 0.0     # seconds the connection takes to come up
+
     async def open(self):
+        if self.open_delay:
+            await asyncio.sleep(self.open_delay)
         self.running = True
         self.opened += 1
         self._stop = asyncio.get_running_loop().create_future()
